@@ -49,11 +49,12 @@ def disjoint(ex, p1, n1, p2, n2):
 
 class LemmaOb:
     """A lemma over contracts: assumptions /\\ not goal must be unsat."""
-    def __init__(self, name, assumptions, goal, timeout=None, cases=None, abstract=None):
+    def __init__(self, name, assumptions, goal, timeout=None, cases=None, abstract=None, logic=None):
         self.name = name
         self.assumptions = assumptions
         self.goal = goal
         self.timeout = timeout
+        self.logic = logic
         self.cases = cases          # list of (label, cond): one obligation per case + a cover obligation
         self.abstract = abstract    # list of (term, fresh const): generalise a shared subterm before solving
 
@@ -82,3 +83,13 @@ def obj_at(ex, mem, addr, value_bv):
     for k in range(n):
         mem = z3.Store(mem, addr + z3.BitVecVal(k, ex.pbits), z3.Extract(8 * k + 7, 8 * k, value_bv))
     return mem
+
+
+def U(x):
+    """unsigned integer value of a bit-vector term (for specs over unbounded ghost quantities)"""
+    return z3.BV2Int(x, False)
+
+
+def S(x):
+    """signed integer value of a bit-vector term"""
+    return z3.BV2Int(x, True)
